@@ -875,6 +875,24 @@ fn query(pool: &[Option<Obj>], toks: &[&str]) -> String {
             }
             None => "skip".to_string(),
         },
+        // normal forms computed and dropped at once (nothing is kept alive between calls)
+        "nf" => match reg(toks[1]) {
+            Some(Obj::E(e)) => {
+                let (n, c, d) = (e.to_nnf(), e.to_cnf(), e.to_dnf());
+                let tv = |x: &E| match catch_unwind(AssertUnwindSafe(|| truth_vector(&Obj::E(x.clone())))) {
+                    Ok(v) => bits(&v),
+                    Err(_) => "panic".to_string(),
+                };
+                format!(
+                    "nnf={} cnf={} dnf={} shape={}{}{} tvs={},{},{} ins={};{};{}",
+                    show_expr(&n), show_expr(&c), show_expr(&d),
+                    n.is_nnf() as u8, c.is_cnf() as u8, d.is_dnf() as u8,
+                    tv(&n), tv(&c), tv(&d),
+                    names(n.inputs().iter()), names(c.inputs().iter()), names(d.inputs().iter())
+                )
+            }
+            _ => "skip".to_string(),
+        },
         // weight alone (no enumeration): usable for diagrams with many inputs
         "weight" => match reg(toks[1]) {
             Some(Obj::B(b)) => format!("w={} deg={} nodes={}", b.weight(), b.degree(), b.node_count()),
